@@ -1404,7 +1404,7 @@ func (c *Client) sendSingleMsg(client *smtp.Client, message *Msg) error {
 			client.SetDSNMailReturnOption(string(c.dsnReturnType))
 		}
 	}
-	if err = client.Mail(from); err != nil {
+	if err = client.Mail(quoteSMTPPath(from)); err != nil {
 		retError := &SendError{
 			Reason: ErrSMTPMailFrom, errlist: []error{err}, isTemp: isTempError(err),
 			affectedMsg: message, errcode: errorCode(err),
@@ -1422,7 +1422,7 @@ func (c *Client) sendSingleMsg(client *smtp.Client, message *Msg) error {
 	rcptNotifyOpt := strings.Join(c.dsnRcptNotifyType, ",")
 	client.SetDSNRcptNotifyOption(rcptNotifyOpt)
 	for _, rcpt := range rcpts {
-		if err = client.Rcpt(rcpt); err != nil {
+		if err = client.Rcpt(quoteSMTPPath(rcpt)); err != nil {
 			rcptSendErr.Reason = ErrSMTPRcptTo
 			rcptSendErr.errlist = append(rcptSendErr.errlist, err)
 			rcptSendErr.rcpt = append(rcptSendErr.rcpt, rcpt)
@@ -1593,4 +1593,50 @@ func (c *Client) tls(client *smtp.Client, isEnc *bool) error {
 		*isEnc = tlsConnState.HandshakeComplete
 	}
 	return nil
+}
+
+// quoteSMTPPath returns the given mail address in the form required for the SMTP MAIL FROM and
+// RCPT TO commands.
+//
+// net/mail.ParseAddress returns the local part of an address in its unquoted form. If the local part
+// is not a valid dot-atom (for example because it contains a space or one of the characters <>@,;:\"),
+// it must be transmitted as a quoted string, otherwise it would alter the structure of the command line.
+//
+// Parameters:
+//   - addr: The mail address as returned by Msg.GetSender or Msg.GetRecipients.
+//
+// Returns:
+//   - The mail address with its local part quoted if required.
+//
+// References:
+//   - https://datatracker.ietf.org/doc/html/rfc5321#section-4.1.2
+func quoteSMTPPath(addr string) string {
+	at := strings.LastIndex(addr, "@")
+	if at <= 0 {
+		return addr
+	}
+	local, domain := addr[:at], addr[at:]
+	isDotAtom := local[0] != '.' && local[len(local)-1] != '.' && !strings.Contains(local, "..")
+	for i := 0; i < len(local) && isDotAtom; i++ {
+		char := local[i]
+		switch {
+		case char >= 'a' && char <= 'z', char >= 'A' && char <= 'Z', char >= '0' && char <= '9':
+		case char >= 0x80 || strings.IndexByte("!#$%&'*+-/=?^_`{|}~.", char) >= 0:
+		default:
+			isDotAtom = false
+		}
+	}
+	if isDotAtom {
+		return addr
+	}
+	var quoted strings.Builder
+	quoted.WriteByte('"')
+	for i := 0; i < len(local); i++ {
+		if local[i] == '\\' || local[i] == '"' {
+			quoted.WriteByte('\\')
+		}
+		quoted.WriteByte(local[i])
+	}
+	quoted.WriteByte('"')
+	return quoted.String() + domain
 }
